@@ -2112,6 +2112,12 @@ static program_t *epilog ()
   ident_hash_elem_t *ihe;
   program_t *prog;
 
+  /* function addresses, branch links and program_size are 16 bits wide */
+  UPDATE_PROGRAM_SIZE;
+  if (!inherit_file &&
+      mem_block[A_PROGRAM].current_size + mem_block[A_INITIALIZER].current_size > USHRT_MAX - 16)
+    yyerror ("Program too large (more than 64K of code)");
+
   if (num_parse_error > 0 || inherit_file)
     {
       /* don't print these; they can be wrong, since we didn't parse the
